@@ -3,6 +3,7 @@ pub mod c01;
 pub mod c02;
 pub mod c03;
 pub mod c06;
+pub mod c11;
 pub mod c12;
 pub mod c13;
 pub mod c16;
@@ -16,6 +17,7 @@ pub fn run(prop: &str, ctx: &mut Ctx) -> bool {
         "C02" => c02::run(ctx),
         "C03" => c03::run(ctx),
         "C06" => c06::run(ctx),
+        "C11" => c11::run(ctx),
         "C12" => c12::run(ctx),
         "C13" => c13::run(ctx),
         "C16" => c16::run(ctx),
